@@ -35,3 +35,19 @@ Fixpoint join (sep : string) (l : list string) : string :=
   | x :: r => x ++ sep ++ join sep r
   end.
 Definition lines (l : list string) : string := join nl l.
+
+(* hexadecimal transport of byte strings between the generators and the model *)
+Definition hex_digit (n : N) : ascii := if N.ltb n 10 then ascii_of_N (48 + n) else ascii_of_N (87 + n).
+Fixpoint to_hex (s : string) : string :=
+  match s with
+  | EmptyString => EmptyString
+  | String c r => let n := N_of_ascii c in String (hex_digit (N.div n 16)) (String (hex_digit (N.modulo n 16)) (to_hex r))
+  end.
+Definition hex_val (c : ascii) : N :=
+  let n := N_of_ascii c in
+  if N.leb 97 n then n - 87 else if N.leb 65 n then n - 55 else n - 48.
+Fixpoint of_hex (s : string) : string :=
+  match s with
+  | String a (String b r) => String (ascii_of_N (hex_val a * 16 + hex_val b)) (of_hex r)
+  | _ => EmptyString
+  end.
